@@ -131,6 +131,19 @@ theorem removeAbove_eq_self (d : Dom) (v : Int) (h : d.dmax ≤ v) : d.removeAbo
   have := le_dmax d w hw
   simp; omega
 
+/-- removing below a bound above the minimum really removes something -/
+theorem removeBelow_length_lt (d : Dom) (v : Int) (h : d.dmin < v) (hne : d ≠ [] := by assumption) :
+    (d.removeBelow v).length < d.length := by
+  unfold removeBelow
+  apply List.length_filter_lt_length_iff_exists.2
+  exact ⟨d.dmin, dmin_mem d hne, by simp; omega⟩
+
+theorem removeAbove_length_lt (d : Dom) (v : Int) (h : v < d.dmax) (hne : d ≠ [] := by assumption) :
+    (d.removeAbove v).length < d.length := by
+  unfold removeAbove
+  apply List.length_filter_lt_length_iff_exists.2
+  exact ⟨d.dmax, dmax_mem d hne, by simp; omega⟩
+
 /-- a singleton domain -/
 theorem fixed_iff (d : Dom) : d.isFixed = true ↔ ∃ w, d = [w] := by
   unfold isFixed
